@@ -2,6 +2,7 @@
 use crate::report::{Ctx, Report};
 use serde_json::{json, Value};
 
+pub mod c01;
 pub mod c02;
 pub mod c03;
 pub mod c07;
@@ -14,6 +15,7 @@ type LaneFn = fn(&Ctx) -> Report;
 
 pub fn lanes_of(id: &str) -> Vec<(&'static str, LaneFn)> {
     match id {
+        "C01" => vec![("routing", c01::routing), ("hostile_ids", c01::hostile_ids), ("abandoned", c01::abandoned)],
         "C02" => vec![("requests", c02::requests), ("modifiers", c02::modifiers)],
         "C03" => vec![("responses", c03::responses), ("helpers", c03::helpers)],
         "C07" => vec![("trees", c07::trees), ("integers", c07::integers), ("nonminimal", c07::nonminimal)],
@@ -44,6 +46,7 @@ pub fn run(ctx: &Ctx, id: &str, only: Option<&str>) -> Vec<Value> {
 
 pub fn replay(ctx: &Ctx, id: &str, v: &Value) -> Value {
     let rep = match id {
+        "C01" => c01::replay(ctx, v),
         "C02" => c02::replay(ctx, v),
         "C03" => c03::replay(ctx, v),
         "C07" => c07::replay(ctx, v),
